@@ -136,11 +136,14 @@ class EngineE:
                 k = g.randint(1, min(4, len(positions)))
                 chosen = g.sample(positions, k)
             rows = []
+            many = g.random() < 0.25  # long inputs: dozens of rows over a few positions
             for p in chosen:
-                for _ in range(weighted(g, [(1, 4), (2, 3), (3, 2), (4, 1)])):
+                for _ in range(weighted(g, [(1, 4), (2, 3), (3, 2), (4, 1)]) if not many else g.randint(3, 20)):
                     rows.append(list(p))
             g.shuffle(rows)
             vals = [float(g.choice([-2, -1, -0.5, 0.25, 0.5, 1, 1, 2, 3])) for _ in rows]
+            if many and g.random() < 0.7:
+                vals = [float(k + 1) * g.choice([1.0, 1.0, -1.0]) for k in range(len(rows))]  # all different: which value was taken is visible
             if g.random() < 0.2:
                 # tiny but non-zero magnitudes: only an exact zero result may be dropped
                 # (integer multiples of a power of two, so that sums are exact whatever the summation order)
@@ -158,7 +161,7 @@ class EngineE:
             step["subs"] = rows
             step["vals"] = vals
             step["shape"] = shape if huge else g.choice([None, shape, [s + g.randint(0, 1) for s in shape]])
-            step["reducer"] = g.choice(["sum", "sum", "default", "min", "max", "mean", "np.max", "np.sum", "prod"])
+            step["reducer"] = g.choice(["sum", "sum", "default", "min", "max", "mean", "np.max", "np.sum", "prod", "first", "last", "callable_first", "callable_last"])
         else:  # k_from_function
             step["shape"] = self._shape(g)
             step["rank"] = g.randint(1, 3)
@@ -171,10 +174,18 @@ class EngineE:
         res = RunResult()
         res.init = {}
         n = st.get("swarm").randint(6, 20)
+        stop = False
         for k in range(n):
             step = self._gen_step(g, st.u32("np", k))
-            res.steps.append(step)
-            if not self._exec(step, len(res.steps) - 1, res):
+            # the application edits, in place, what a generator handed it; and asks for the same thing again
+            step["scribble"] = g.random() < 0.3
+            again = [dict(step, scribble=g.random() < 0.3) for _ in range(weighted(g, [(0, 6), (1, 3), (2, 1)]))]
+            for stp in [step] + again:
+                res.steps.append(stp)
+                if not self._exec(stp, len(res.steps) - 1, res):
+                    stop = True
+                    break
+            if stop:
                 break
         return self._finish(res)
 
@@ -218,6 +229,7 @@ class EngineE:
         res.bump("op:" + op)
         V = lambda oracle, detail: Violation("C20", oracle, op, i, detail)  # noqa: E731
         tol = set(step.get("tolerate", []))
+        self._last = None
         with warnings.catch_warnings():
             warnings.simplefilter("ignore")
             try:
@@ -232,13 +244,34 @@ class EngineE:
             res.violation = v
             res.events.append([i, op, "violation", v.oracle])
             return False
+        if step.get("scribble") and self._last is not None:
+            self._scribble(self._last)
+            res.bump("results_edited_in_place")
         res.bump("calls_checked")
         res.states.add(hash((op, len(step.get("shape") or []), step.get("reducer"), step.get("fn"), step.get("density") is not None)) & 0xFFFFFFFF)
         return True
 
+    def _scribble(self, obj):
+        ttb = self.ttb
+        with np.errstate(all="ignore"):
+            try:
+                if isinstance(obj, ttb.tensor):
+                    obj.data[...] = -2.0 * obj.data - 1.0
+                elif isinstance(obj, ttb.sptensor):
+                    if obj.vals.size:
+                        obj.vals[...] = -2.0 * obj.vals - 1.0
+                        obj.subs[...] = 0
+                elif isinstance(obj, ttb.ktensor):
+                    obj.weights[...] = -2.0 * obj.weights - 1.0
+                    for f in obj.factor_matrices:
+                        f[...] = -2.0 * f - 1.0
+            except (ValueError, TypeError):
+                pass
+
     # ---- dense generators
     def _do_tenones(self, step, V, res, tol):
         T = self.ttb.tenones(tuple(step["shape"]), order=step["order"])
+        self._last = T
         if tuple(T.shape) != tuple(step["shape"]) or T.data.shape != tuple(step["shape"]):
             return V("exact_shape", f"shape {T.shape}")
         if not np.all(T.data == 1):
@@ -248,6 +281,7 @@ class EngineE:
 
     def _do_tenzeros(self, step, V, res, tol):
         T = self.ttb.tenzeros(tuple(step["shape"]), order=step["order"])
+        self._last = T
         if tuple(T.shape) != tuple(step["shape"]) or T.data.shape != tuple(step["shape"]):
             return V("exact_shape", f"shape {T.shape}")
         if np.any(T.data != 0):
@@ -287,6 +321,7 @@ class EngineE:
     def _do_tendiag(self, step, V, res, tol):
         shape, want = self._diag_expect(step)
         T = self.ttb.tendiag(np.array(step["elements"]), None if step["shape"] is None else tuple(step["shape"]), order=step.get("order", "F"))
+        self._last = T
         if tuple(T.shape) != shape or T.data.shape != shape:
             return V("exact_shape", f"tendiag shape {T.shape}, expected {shape}")
         if not np.array_equal(T.data, want):
@@ -297,6 +332,7 @@ class EngineE:
     def _do_sptendiag(self, step, V, res, tol):
         shape, want = self._diag_expect(step)
         S = self.ttb.sptendiag(np.array(step["elements"]), None if step["shape"] is None else tuple(step["shape"]))
+        self._last = S
         p = wellformed(S, shape)
         if p:
             return V("wellformed_sparse_result", "sptendiag: " + p)
@@ -313,6 +349,7 @@ class EngineE:
     def _do_teneye(self, step, V, res, tol):
         nd, size = step["ndims"], step["size"]
         T = self.ttb.teneye(nd, size, order=step.get("order", "F"))
+        self._last = T
         if tuple(T.shape) != (size,) * nd:
             return V("exact_shape", f"teneye shape {T.shape}")
         for x in step["xs"]:
@@ -346,6 +383,7 @@ class EngineE:
             return np.full(n, 2.5)
 
         T = self.ttb.tensor.from_function(fn, shape)
+        self._last = T
         want = {"arange_1d": base.reshape(shape, order="F"), "arange_F": base.reshape(shape, order="F"), "arange_C": base.reshape(shape, order="F"), "ones_F": np.ones(shape), "const_1d": np.full(shape, 2.5)}[name]
         if tuple(T.shape) != shape or T.data.shape != shape:
             return V("exact_shape", f"from_function shape {T.shape}")
@@ -393,6 +431,7 @@ class EngineE:
         calls1: List[Any] = []
         np.random.seed(step["np_seed"])
         A = self._call_sparse(step, calls1)
+        self._last = A
         after = rng_state_digest()
         calls2: List[Any] = []
         np.random.seed(step["np_seed"])
@@ -443,18 +482,20 @@ class EngineE:
         groups: Dict[Any, List[float]] = {}
         for r, v in zip(rows, vals):
             groups.setdefault(tuple(r), []).append(v)
-        f = {"sum": sum, "default": sum, "np.sum": sum, "min": min, "max": max, "np.max": max, "mean": lambda xs: sum(xs) / len(xs), "prod": lambda xs: float(np.prod(xs))}[red]
+        f = {"sum": sum, "default": sum, "np.sum": sum, "min": min, "max": max, "np.max": max, "mean": lambda xs: sum(xs) / len(xs), "prod": lambda xs: float(np.prod(xs)),
+             "first": lambda xs: xs[0], "callable_first": lambda xs: xs[0], "last": lambda xs: xs[-1], "callable_last": lambda xs: xs[-1]}[red]  # fmt: skip
         want = {p: float(f(vs)) for p, vs in groups.items()}
         want = {p: v for p, v in want.items() if v != 0}
         kw: Dict[str, Any] = {}
         if red != "default":
-            kw["function_handle"] = {"np.max": np.max, "np.sum": np.sum}.get(red, red)
+            kw["function_handle"] = {"np.max": np.max, "np.sum": np.sum, "callable_first": lambda v: v[0], "callable_last": lambda v: v[-1]}.get(red, red)
         subs = np.array(rows, dtype=step.get("subs_dtype", "int64")).reshape(len(rows), nd)
         v = np.array(vals, dtype=float).reshape(-1, 1)
         subs0, v0 = subs.copy(), v.copy()
         if max(shape) > 10**4:
             res.bump("probe:huge_declared_shape")
         S = ttb.sptensor.from_aggregator(subs, v, None if step["shape"] is None else shape, **kw)
+        self._last = S
         p = wellformed(S, shape)
         if p:
             return V("wellformed_sparse_result", "from_aggregator: " + p)
@@ -483,6 +524,7 @@ class EngineE:
         calls: List[Any] = []
         np.random.seed(step["np_seed"])
         K = ttb.ktensor.from_function(self._fn(step["fn"], calls), shape, r)
+        self._last = K
         if tuple(K.shape) != shape or K.ncomponents != r:
             return V("exact_shape", f"ktensor shape {K.shape} rank {K.ncomponents}")
         if not np.array_equal(K.weights, np.ones(r)):
